@@ -6,12 +6,12 @@ LEVEL = "model_checking"
 MANIFEST = {
     "engine": "tlc StorerModel histories + vh c17",
     "technique": "TLC enumerates every history of storage API calls (refs set/CAS/remove/pack, objects, index, shallow, config) over the abstract StorerModel spec; each is replayed on memory storage and on filesystem storage under several option combinations, and after every call a complete read-back (every lookup, typed lookup, size, type iteration, listing, index, shallow, config) plus a fresh re-open is compared with the state and error kind the spec computed",
-    "text": "Exhaustive over all operation sequences of length 2 (thorough 3) from 2 initial states over 35 operations, plus simulated histories of length 6; each backend is compared with the spec itself (not only with the other backends), so a common bug is still caught.",
+    "text": "Exhaustive over all operation sequences of length 2 (thorough 3) from 2 initial states over 35 operations, plus all re-packing histories of length 4 (reference operation / PackRefs alternating) and simulated histories of length 6; each backend is compared with the spec itself (not only with the other backends), so a common bug is still caught.",
     "note": "Small universe (3 ref names, 2 hashes, 5 objects, 2 indexes, 3 shallow sets, 2 configs); reflogs and modules are not in the model; packed-object initial layouts are covered by C11/C18 rather than here.",
 }
 HIDDEN = "TypeOK FailedChangesNothing ObjectsOnlyGrow FrameRefs FrameObjs ShallowReplaces EmitHist"
 CFG = """CONSTANTS Names <- MCNames Hashes <- MCHashes SymOK <- MCSymOK NoRemove <- MCNoRemove Objects <- MCObjects PackSets <- MCPackSets
- IdxVals <- MCIdxVals ShallowSets <- MCShallowSets CfgVals <- MCCfgVals Inits <- MCInits MaxOps = %d EmitAll = TRUE
+ IdxVals <- MCIdxVals ShallowSets <- MCShallowSets CfgVals <- MCCfgVals Inits <- MCInits Focus = "%s" MaxOps = %d EmitAll = TRUE
 INIT Init
 NEXT Next
 INVARIANTS """ + HIDDEN + """
@@ -21,11 +21,17 @@ CHECK_DEADLOCK FALSE
 
 def histories(ctx, depth, sim_depth, num):
     hists = []
-    r = ctx.tlc("MCStorerModel", cfg_text=CFG % depth, workers=1, timeout=2400)
+    r = ctx.tlc("MCStorerModel", cfg_text=CFG % ("all", depth), workers=1, timeout=2400)
+    hists += ctx.printed_json(r)
+    # re-packing histories: a reference operation, PackRefs, a reference operation, PackRefs (exhaustive),
+    # so that lookups meet a packed-refs file written by go-git's own PackRefs more than once
+    r = ctx.tlc("MCStorerModel", cfg_text=CFG % ("packalt", 4), workers=1, timeout=2400, dirname="tla-packalt")
     hists += ctx.printed_json(r)
     n_ex = len(hists)
-    r2 = ctx.tlc("MCStorerModel", cfg_text=CFG % sim_depth, mode="simulate", depth=sim_depth + 1, num=num, workers=1, timeout=2400)
+    r2 = ctx.tlc("MCStorerModel", cfg_text=CFG % ("all", sim_depth), mode="simulate", depth=sim_depth + 1, num=num, workers=1, timeout=2400)
     hists += ctx.printed_json(r2)
+    r3 = ctx.tlc("MCStorerModel", cfg_text=CFG % ("packalt", sim_depth), mode="simulate", depth=sim_depth + 1, num=num, workers=1, timeout=2400, dirname="tla-packalt-sim")
+    hists += ctx.printed_json(r3)
     seen, uniq = set(), []
     for h in hists:
         k = json.dumps(h, sort_keys=True)
